@@ -2,7 +2,7 @@
    Everything is parametric in the carrier F of Python's float and in a
    record of operations on it (FloatOps).  Two instances exist: B64.v
    (kernel binary64, executable) and Ideal.v (Coq reals). *)
-From Coq Require Import ZArith List String Ascii Bool.
+From Coq Require Import ZArith NArith List String Ascii Bool.
 From Coq Require PrimFloat.
 Import ListNotations.
 Open Scope Z_scope.
@@ -564,9 +564,9 @@ Definition item (v : val) (i : nat) : val :=
 
 (* ---------------------------------------------------------------- strings *)
 
+Definition acode (c : ascii) : N := N_of_ascii c.
 Definition is_space (c : ascii) : bool :=
-  let n := nat_of_ascii c in
-  (Nat.eqb n 32) || ((Nat.leb 9 n) && (Nat.leb n 13)).
+  let n := acode c in (N.eqb n 32) || ((N.leb 9 n) && (N.leb n 13)).
 Fixpoint lstrip (s : string) : string :=
   match s with
   | String c r => if is_space c then lstrip r else s
@@ -577,11 +577,11 @@ Fixpoint srev_app (s acc : string) : string :=
 Definition srev (s : string) := srev_app s EmptyString.
 Definition str_strip (s : string) : string := srev (lstrip (srev (lstrip s))).
 Definition upper_c (c : ascii) : ascii :=
-  let n := nat_of_ascii c in
-  if (Nat.leb 97 n) && (Nat.leb n 122) then ascii_of_nat (n - 32) else c.
+  let n := acode c in
+  if (N.leb 97 n) && (N.leb n 122) then ascii_of_N (n - 32) else c.
 Definition lower_c (c : ascii) : ascii :=
-  let n := nat_of_ascii c in
-  if (Nat.leb 65 n) && (Nat.leb n 90) then ascii_of_nat (n + 32) else c.
+  let n := acode c in
+  if (N.leb 65 n) && (N.leb n 90) then ascii_of_N (n + 32) else c.
 Fixpoint smap (f : ascii -> ascii) (s : string) : string :=
   match s with String c r => String (f c) (smap f r) | EmptyString => EmptyString end.
 Definition str_capitalize (s : string) : string :=
@@ -591,7 +591,7 @@ Definition str_capitalize (s : string) : string :=
   end.
 Definition is_ascii_str (s : string) : bool :=
   let fix go s := match s with
-    | String c r => Nat.ltb (nat_of_ascii c) 128 && go r
+    | String c r => N.ltb (acode c) 128 && go r
     | EmptyString => true end in go s.
 
 Definition str_meth (f : string -> string) (v : val) : val :=
